@@ -617,7 +617,13 @@ func runScenario(sc scen) (fs []tmon.Finding, nFut int, stats map[string]int64, 
 						mon.Call(2500*time.Millisecond, 0, false)
 					}
 				case "near":
-					mon.Call(20*time.Millisecond, 0, false)
+					// in half of the configurations the near deadline lies just beyond the idle timeout (a pool that
+					// relies on "nobody sleeps longer than the idle timeout" must still notice it)
+					d := 20 * time.Millisecond
+					if sc.Idle <= 200*time.Millisecond && (sc.Callers+sc.MaxWorkers+int(sc.Idle/time.Millisecond))%2 == 1 {
+						d = sc.Idle + 10*time.Millisecond
+					}
+					mon.Call(d, 0, false)
 				case "burst":
 					for i := 0; i < 50; i++ {
 						mon.Call(5*time.Millisecond, 0, false)
@@ -745,7 +751,7 @@ func TestChild(t *testing.T) {
 	if os.Getenv("VERIF_PASS") == "asynctimerchan" {
 		var short []scen
 		for i, s := range list {
-			if i%8 == 0 && s.Idle < time.Second {
+			if (i%8 == 0 && s.Idle < time.Second) || s.Order[0] == "idleedge" || s.Order[0] == "idleconvoy" {
 				short = append(short, s)
 			}
 		}
@@ -813,7 +819,7 @@ func TestChild(t *testing.T) {
 func TestCheck(t *testing.T) {
 	run := report.New("C13", "exploration")
 	defer run.Finish(t)
-	run.Rule("arrival patterns: permutations of {far future (30 s, or 'never' = MaxInt64), near future 20 ms, burst of 50 futures (> pool), cancel the head of the queue, idle gap of 2.5 idle timeouts} (24 orders quick, all 120 thorough) x 1 or 4 concurrent callers x idle timeout 20 ms / 200 ms (/ 5 s thorough) x pool limit 1/2/10, callbacks return at once; between the elements futures that fired or were cancelled already are cancelled again (late / repeated cancels); extra patterns with seven long watchdogs of different deadlines, two of which are cancelled from the middle of the queue, mixed with near futures and bursts. Monitors: every non-cancelled future starts (drain detector on hook state; pending>0 with no worker is final), lateness <= 1.5 s, hook invariant pending>0 => workers>=1 sampled under the package lock, workers reach 0 within (limit+3) idle periods + 2 s and the goroutine census agrees, a Call after the wind-down fires again; contended wind-down rounds: a far future pending, a blocking burst grows the pool to its limit, four goroutines hammer the package lock while the surplus workers leave - one worker must stay. a third of the 10-worker scenarios and rendezvous bursts (2-5 futures due together whose callbacks wait up to 300 ms for each other; only eventual start is judged, the statement bounds lateness for prompt callbacks only); slow patterns with a deadline 2.5 s ahead (inside the 3 s idle timeout) pending when a near one arrives; the chase trials (a Call issued the moment the previous callback is seen running, swept by 0-2 us, 3 s idle timeout) also run in children that never replace the package state built by the package's own init(). evaluations = futures; distinct = distinct scenario configurations")
+	run.Rule("arrival patterns: permutations of {far future (30 s, or 'never' = MaxInt64), near future 20 ms (in half of the configurations: idle timeout + 10 ms), burst of 50 futures (> pool), cancel the head of the queue, idle gap of 2.5 idle timeouts} (24 orders quick, all 120 thorough) x 1 or 4 concurrent callers x idle timeout 20 ms / 200 ms (/ 5 s thorough) x pool limit 1/2/10, callbacks return at once; between the elements futures that fired or were cancelled already are cancelled again (late / repeated cancels); extra patterns with seven long watchdogs of different deadlines, two of which are cancelled from the middle of the queue, mixed with near futures and bursts. Monitors: every non-cancelled future starts (drain detector on hook state; pending>0 with no worker is final), lateness <= 1.5 s, hook invariant pending>0 => workers>=1 sampled under the package lock, workers reach 0 within (limit+3) idle periods + 2 s and the goroutine census agrees, a Call after the wind-down fires again; contended wind-down rounds: a far future pending, a blocking burst grows the pool to its limit, four goroutines hammer the package lock while the surplus workers leave - one worker must stay. a third of the 10-worker scenarios and rendezvous bursts (2-5 futures due together whose callbacks wait up to 300 ms for each other; only eventual start is judged, the statement bounds lateness for prompt callbacks only); slow patterns with a deadline 2.5 s ahead (inside the 3 s idle timeout) pending when a near one arrives; the chase trials (a Call issued the moment the previous callback is seen running, swept by 0-2 us, 3 s idle timeout) also run in children that never replace the package state built by the package's own init(). evaluations = futures; distinct = distinct scenario configurations")
 	run.Assume("lateness and wind-down bounds are two orders of magnitude above the healthy values and guarded by a stall canary (repeat up to 3 times, then inconclusive)")
 
 	if p := os.Getenv("VERIF_REPLAY"); p != "" {
